@@ -631,6 +631,8 @@ def render_items(st, mdl, listname, out, uniq, oracle_vals=None):
             segs.append(model_str(mdl, var, "zq%d" % uniq[0]))
         out.put("::".join(segs))
         form = st.decisions.get(meta + "#d")
+        if form is None and st.decisions.get(meta + "#not"):
+            form = [f for f in (0, 1, 2) if f not in st.decisions[meta + "#not"]][0]
         conv = None
         for prefix in ("conv", "convw"):
             cd = st.decisions.get("%s(%s)#d" % (prefix, meta))
